@@ -128,8 +128,12 @@ package dense
 //@ axiom [lens]  forall g graph.Graph, n int :: {outSeq(g, n)} len(outSeq(g, n)) >= 0
 //@ group
 //@ func (*nodeHeap).init
-//@   trusted
+//@   requires h != nil
+//@   nosafe   all
+//@   may_panic
 //@   modifies *h
+//@   loop 1   modifies h.prio
+//@   loop 1   invariant [q] len(h.inQueue) == (nNodes + 63) / 64 && len(h.heap) == 0 && (forall k int :: {h.inQueue[k]} 0 <= k && k < len(h.inQueue) ==> h.inQueue[k] == 0)
 //@   ensures  len(h.inQueue) == (g.NumNodes() + 63) / 64 && len(h.heap) == 0 && (forall m int :: {inq(h.inQueue, m)} 0 <= m && m < 64*len(h.inQueue) ==> !inq(h.inQueue, m))
 // in-edges recorded so far mirror out-edges: edges out of nodes < lim, and of node lim up to its
 // first `upto` out-edges
